@@ -206,7 +206,9 @@ func (g *c07Gen) transformProgram() jast.Node {
 		subject = obj("k", &jast.Str{V: "x"}, "v", &jast.Num{V: 2}, "n", &jast.Null{}, "g", &jast.Lambda{Params: []string{"x"}, Body: &jast.Bin{Op: "*", L: &jast.Var{Name: "x"}, R: &jast.Num{V: 3}}},
 			"b", obj("n", &jast.Null{}, "k", &jast.Str{V: "y"}),
 			// arrays as the library hands them out ([]string, Go integers)
-			"sp", call("split", &jast.Str{V: "p,q"}, &jast.Str{V: ","}), "cnt", call("count", lit(A{1.0, 2.0})))
+			"sp", call("split", &jast.Str{V: "p,q"}, &jast.Str{V: ","}), "cnt", call("count", lit(A{1.0, 2.0})),
+			// a function that an array function has wrapped into an array
+			"fs", call(r.Pick("shuffle", "zip", "append"), &jast.Lambda{Params: []string{"x"}, Body: &jast.Bin{Op: "+", L: &jast.Var{Name: "x"}, R: &jast.Num{V: 5}}}))
 	case 0:
 		subject = &jast.Var{Name: ""}
 	case 1:
@@ -255,6 +257,8 @@ func (g *c07Gen) transformProgram() jast.Node {
 			call("exists", &jast.Path{Steps: []jast.Node{&jast.Block{Exprs: []jast.Node{e}}, &jast.Name{V: "n"}}}),
 			&jast.Bin{Op: "=", L: &jast.Path{Steps: []jast.Node{&jast.Block{Exprs: []jast.Node{e}}, &jast.Name{V: "b"}, &jast.Name{V: "n"}}}, R: &jast.Null{}},
 			&jast.Path{Steps: []jast.Node{&jast.Block{Exprs: []jast.Node{e}}, &jast.Call{Fn: &jast.Name{V: "g"}, Args: []jast.Node{&jast.Num{V: 2}}}}},
+			call("map", call("append", &jast.Path{Steps: []jast.Node{&jast.Block{Exprs: []jast.Node{e}}, &jast.Name{V: "fs"}}}, &jast.Array{}),
+				&jast.Lambda{Params: []string{"h"}, Body: &jast.Cond{If: &jast.Bin{Op: "=", L: call("type", &jast.Var{Name: "h"}), R: &jast.Str{V: "function"}}, Then: &jast.Call{Fn: &jast.Var{Name: "h"}, Args: []jast.Node{&jast.Num{V: 2}}}, Else: call("type", &jast.Var{Name: "h"})}}),
 		}})
 	}
 	if g.tags["update:function-member"] {
